@@ -432,12 +432,9 @@ func (e *Engine) findIndicesAdaptiveAtWithState(haystack []byte, at int, state *
 		atomic.AddUint64(&e.stats.DFASearches, 1)
 		endPos := e.dfa.FindAt(state.dfaCache, haystack, at)
 		if endPos != -1 {
-			// Use estimated start for O(m) search
-			estimatedStart := at
-			if endPos > at+100 {
-				estimatedStart = endPos - 100
-			}
-			return state.pikevm.SearchAt(haystack, estimatedStart)
+			// (the start can be arbitrarily far before endPos: search from at,
+			// not from a guessed offset)
+			return state.pikevm.SearchAt(haystack, at)
 		}
 		size, capacity, _, _, _ := e.dfa.CacheStats(state.dfaCache)
 		if size >= int(capacity)*9/10 {
@@ -490,12 +487,10 @@ func (e *Engine) findIndicesAdaptive(haystack []byte) (int, int, bool) {
 		endPos := e.dfa.Find(state.dfaCache, haystack)
 		if endPos != -1 {
 			e.putSearchState(state)
-			// Use estimated start position for O(m) search instead of O(n)
-			estimatedStart := 0
-			if endPos > 100 {
-				estimatedStart = endPos - 100
-			}
-			return e.pikevm.SearchAt(haystack, estimatedStart)
+			// The DFA only says that there is a match (and where the leftmost one
+			// ends); its start can be arbitrarily far back, so the NFA has to look
+			// from the beginning - not from a guessed offset before the end.
+			return e.pikevm.SearchAt(haystack, 0)
 		}
 		size, capacity, _, _, _ := e.dfa.CacheStats(state.dfaCache)
 		e.putSearchState(state)
@@ -536,12 +531,9 @@ func (e *Engine) findIndicesAdaptiveAt(haystack []byte, at int) (int, int, bool)
 		endPos := e.dfa.FindAt(state.dfaCache, haystack, at)
 		if endPos != -1 {
 			e.putSearchState(state)
-			// Use estimated start for O(m) search
-			estimatedStart := at
-			if endPos > at+100 {
-				estimatedStart = endPos - 100
-			}
-			return e.pikevm.SearchAt(haystack, estimatedStart)
+			// (the start can be arbitrarily far before endPos: search from at,
+			// not from a guessed offset)
+			return e.pikevm.SearchAt(haystack, at)
 		}
 		size, capacity, _, _, _ := e.dfa.CacheStats(state.dfaCache)
 		e.putSearchState(state)
